@@ -29,7 +29,14 @@ type Obligation struct {
 	syntactic bool
 }
 
+// provenance of a local pointer read from a map of pointers: writes through the local are written back to the entry
+type provInfo struct {
+	mapExpr ast.Expr
+	key     Term
+}
+
 type State struct {
+	prov  map[types.Object]provInfo
 	vars  map[types.Object]Term
 	ghost map[string]Term
 	pc    Term
@@ -46,6 +53,12 @@ func (s *State) clone() *State {
 		n.ghost[k] = v
 	}
 	n.ret = s.ret
+	if len(s.prov) > 0 {
+		n.prov = make(map[types.Object]provInfo, len(s.prov))
+		for k, v := range s.prov {
+			n.prov[k] = v
+		}
+	}
 	return n
 }
 
@@ -220,6 +233,14 @@ func (x *Exec) merge2(a, b *State) *State {
 		d := c.define(o.Name(), m)
 		d.Go = ta.Go
 		out.vars[o] = d
+	}
+	for o, pa := range a.prov {
+		if pb, ok := b.prov[o]; ok && pb.key.S == pa.key.S && pb.mapExpr == pa.mapExpr {
+			if out.prov == nil {
+				out.prov = map[types.Object]provInfo{}
+			}
+			out.prov[o] = pa
+		}
 	}
 	var gs []string
 	for g := range a.ghost {
